@@ -14,6 +14,24 @@ Theorem C14_lookup_guard : forall idx n, match lookup_guard idx n with Some i =>
 Proof. exact lookup_guard_safe. Qed.
 Print Assumptions C14_lookup_guard.
 
+(* rows.go:checkRow: for EVERY list of cell references a row may carry (any order, duplicates, cells without a
+   reference), rebuilding the row writes inside the slice it allocated; the rebuilt row is as wide as its largest
+   column.  The rule before the repair (width taken from the last cell) is refuted: see C14_check_row_before_repair. *)
+Theorem C14_check_row_safe : forall cells, (forall c, In (Some c) cells -> 1 <= c) ->
+  exists t, check_row cells = Ok t /\
+    (length t = length cells \/ Z.of_nat (length t) = width_max (assign_cols cells 0)).
+Proof. exact check_row_safe. Qed.
+Print Assumptions C14_check_row_safe.
+
+Theorem C14_check_row_before_repair : exists cells, (forall c, In (Some c) cells -> 1 <= c) /\
+  check_row_before_repair cells = Panic 1.
+Proof. exact check_row_before_repair_refuted. Qed.
+Print Assumptions C14_check_row_before_repair.
+
+Example C14_ex_row : check_row [Some 5; None; Some 3; Some 3; None] =
+  Ok [None; None; Some 3%nat; None; Some O; Some 1%nat; None; None; Some 4%nat].
+Proof. vm_compute. reflexivity. Qed.
+
 Example C14_ex :
   check_sheet [(3, 3); (2147483648, 0); (-1, 1); (0, 0); (0, 7); (5, 5); (7, 7); (99999999999, 2)] =
     (7, [Some 2; None; None; Some 3; Some 6; Some 4; Some 6; None]).
